@@ -38,8 +38,8 @@ theorem raw_head {cc : CharClass} (hcc : cc.AsciiExact) (t : Token) (hp : Printa
   | string =>
     exact ⟨'"', _, by simp only [tokRaw, if_true, renderLit]; rfl, space_ascii hcc (by decide) (by decide)⟩
   | number =>
-    obtain ⟨c, cs, hv, hc, _⟩ := hp
-    exact ⟨c, cs, by simp [tokRaw, hv], (digit_root_facts hcc hc).1⟩
+    obtain ⟨p, hwf, _, hv⟩ := hp
+    exact ⟨p.d0, p.ip ++ (p.fracText ++ p.expText), by simp [tokRaw, hv, FloatParts.text], (digit_root_facts hcc hwf.d0).1⟩
   | identifier =>
     obtain ⟨c, cs, hv, hc, _⟩ := hp
     exact ⟨c, cs, by simp [tokRaw, hv], hc.space⟩
@@ -110,9 +110,10 @@ theorem raw_word_of_i {cc : CharClass} (hcc : cc.AsciiExact) (u : Token) (hp : P
     have := congrArg List.head? h
     simp at this
   | number =>
-    obtain ⟨c, cs', hv, hc, _⟩ := hp
-    simp only [tokRaw, hv] at h
+    obtain ⟨p, hwf, _, hv⟩ := hp
+    simp only [tokRaw, hv, FloatParts.text] at h
     simp at h
+    have hc := hwf.d0
     rw [h.1] at hc
     exact absurd hc (by decide)
   | identifier =>
